@@ -7567,7 +7567,6 @@ int cg_poly_elements_general_write(int fn, int B, int Z, int S,
             else {
                 cgi_convert_data(ElementDataSize, m_type, elements, cgi_datatype(CG_SIZE_DATATYPE), &newelems[n]);
             }
-            memcpy(&newelems[n], elements, ((size_t)ElementDataSize)*sizeof(cgsize_t));
 
             n += ElementDataSize;
             for (ii=0; ii<(end-start+1); ii++) {
